@@ -130,7 +130,7 @@ func (a *agg) knownHits() []string {
 
 var wantProbes = map[string][]string{
 	"C09": {"mutex_lock", "mutex_contended", "preempt_holding_mutex", "stall_holding_mutex", "global_handoff", "recovered_panic", "published", "shared_read", "fault_step_invalid_panic", "fault_step_evict", "fault_step_flood", "flood_over_1024_distinct"},
-	"C10": {"moment_in_current_year", "near_new_year", "slot_contains_jie", "rat_slot", "lichun_day", "clock_jump_between_lookups", "zone_change_between_lookups", "base_not_default", "repeat_pillars_other_clock", "jie_on_full_hour", "sect_argument_other_than_1_or_2", "pillars_of_a_moment_just_before_base", "result_list_mutated_by_caller"},
+	"C10": {"moment_in_current_year", "near_new_year", "slot_contains_jie", "rat_slot", "lichun_day", "clock_jump_between_lookups", "zone_change_between_lookups", "base_not_default", "repeat_pillars_other_clock", "jie_on_full_hour", "sect_argument_other_than_1_or_2", "pillars_of_a_moment_just_before_base", "result_list_mutated_by_caller", "long_session_runs"},
 	"C14": {"fix_add_future", "fix_add_before_existing", "fix_add_between", "fix_replace", "fix_remove", "fix_remove_absent", "fix_names_extended", "fix_followup_on_touched_record", "fix_uses_appended_name", "fix_readd_removed_day", "fix_names_renamed_in_place", "fix_add_digit_pattern_at_year_boundary", "fix_add_block", "fix_add_block_longer_than_31_days", "workday_walk_into_recorded_run", "fixes_back_to_back_without_a_query", "fix_names_same_day_twice", "forgotten_label_repaired", "walk_over_unlabelled_record_panicked_and_recovered", "bad_key_recovered", "target_records_not_contiguous", "workday_steps", "salary_checked", "flood_steps", "flood_over_16384_distinct_days"},
 }
 
@@ -174,6 +174,8 @@ func (a *agg) write(tier string, seed uint64, wall float64, nviol int, streams i
 		fk["named_zone"] = a.probes["process_zone_named"]
 		fk["concurrent_callers_run"] = a.probes["concurrent_callers_run"]
 		fk["clock_fault_while_another_caller_is_inside_a_lookup"] = a.probes["clock_fault_while_another_caller_is_inside_a_lookup"]
+		fk["flood"] = a.probes["long_session_runs"]
+		fk["flood_lookups"] = a.probes["lookups_in_long_sessions"]
 	case "C14":
 		fk["named_zone"] = a.probes["process_zone_named"]
 		fk["fixups_back_to_back_without_a_query"] = a.probes["fixes_back_to_back_without_a_query"]
@@ -232,6 +234,6 @@ func (a *agg) write(tier string, seed uint64, wall float64, nviol int, streams i
 
 var faultNote = map[string]string{
 	"C09": "invalid_panic = operations with rejected/choking arguments executed and recovered inside scripts; stall = a task frozen at a scheduling point while others run; evict = operations of an evictor task on cold years; clock_jump = the simulated wall clock advanced by 61 s .. 1 day between two calls of a task; map_order = permuted map iterations (0 when the tree has no map range loop); named_zone = runs whose process-local zone has daylight-saving rules; crowd_of_9_to_12_callers = runs with that many concurrent callers; flood = volume faults: one task making flood_calls distinct valid calls of one kind back to back (130 .. 40000 per flood, log-uniform; uncompared load that pushes bounded caches past their capacity) while the witnessed calls go on before, after and beside it",
-	"C10": "clock_jump / zone_change = the simulated wall clock or time.Local replaced between two lookups of a run (in runs with concurrent callers: while the other callers are wherever the scheduler left them, clock_fault_while_another_caller_is_inside_a_lookup counts those that landed inside a lookup); named_zone = clocks whose zone has daylight-saving rules; every run additionally starts from a PRNG-chosen clock, zone and per-read tick",
+	"C10": "clock_jump / zone_change = the simulated wall clock or time.Local replaced between two lookups of a run (in runs with concurrent callers: while the other callers are wherever the scheduler left them, clock_fault_while_another_caller_is_inside_a_lookup counts those that landed inside a lookup); named_zone = clocks whose zone has daylight-saving rules; every run additionally starts from a PRNG-chosen clock, zone and per-read tick; flood = volume faults: long sessions of 40 .. 260 lookups in one process (flood_lookups in all), each checked, with the run's clock and zone faults spread over them",
 	"C14": "the holiday table's API has one writer, no I/O and no clock; what is injected is: named_zone = runs whose process-local zone has daylight-saving rules; fixups_back_to_back_without_a_query = history steps followed by the next fix-up with no query in between; recovered_panic_between_fixups = a working-day walk over a record without label that panicked and was recovered before the repairing fix-up; malformed_query_recovered = malformed keys whose panic was recovered mid-history; flood = volume faults: flood_queries by-day queries over 200 .. 70000 distinct days (each compared with the model) placed before a fix-up",
 }
